@@ -111,12 +111,12 @@ def resolve_exception(rule, exception):
 
 
 def sites(seq:str, rule:str, exception=None):
-    """ cleavage sites: indices i (1..len) such that the bond before seq[i] is cut """
+    """ cleavage sites: indices i (1..len-1) such that the bond before seq[i] is cut """
     exception = resolve_exception(rule, exception)
     out = []
     alts = RULES[rule]
     exc = RULES[exception] if exception else None
-    for i in range(1, len(seq) + 1):
+    for i in range(1, len(seq)):
         if any(_holds(a, seq, i) for a in alts):
             if exc and any(_holds(a, seq, i) for a in exc):
                 continue
